@@ -30,7 +30,7 @@ ANCHORS = ["QueryBuilder._apply_pagination", "QueryBuilder._limit_sql", "QueryBu
            "_SetOperation._offset_sql", "MSSQLQueryBuilder._apply_pagination", "MSSQLQueryBuilder._offset_sql",
            "MSSQLQueryBuilder._limit_sql", "OracleQueryBuilder._offset_sql", "OracleQueryBuilder._limit_sql",
            "QueryBuilder.slice", "QueryBuilder.__getitem__", "MSSQLQueryBuilder.top", "MSSQLQueryBuilder.fetch_next"]
-WORKERS = {"quick": 8, "thorough": 16}
+WORKERS = {"quick": 16, "thorough": 16}
 
 LIM = {"absent": None, "zero": 0, "pos": 11}
 OFF = {"absent": None, "zero": 0, "pos": 7}
@@ -50,7 +50,7 @@ def cases(tier, seed, shard, nshards):
                     for order in (False, True):
                         for pos in POSITIONS:
                             for mode in ("inline", "param"):
-                                for sur in (SURROUND if tier == "thorough" else SURROUND[:2]):
+                                for sur in (SURROUND if tier == "thorough" else SURROUND[:4]):
                                     k += 1
                                     if k % nshards == shard:
                                         yield {"d": d, "setter": setter, "lim": ln, "off": on, "order": order, "pos": pos,
